@@ -131,8 +131,6 @@ Definition horner (l : list Z) (r : Z) : Z := fold_left (fun a c => 10 * a + sch
 Lemma horner_app : forall a b r, horner (a ++ b) r = horner b (horner a r).
 Proof. intros. unfold horner. apply fold_left_app. Qed.
 
-Definition dlen (n : Z) : Z := Z.of_nat (length (dec_digits dec_fuel n)).
-
 Lemma horner_dec_digits : forall f n r, 0 <= n < 10 ^ Z.of_nat f -> (0 < f)%nat ->
   horner (dec_digits f n) r = r * 10 ^ Z.of_nat (length (dec_digits f n)) + n.
 Proof.
@@ -173,187 +171,136 @@ Proof.
     + lia.
 Qed.
 
-(* ---------------------------------------------------------------------- fast_atoi as a fold *)
+(* ------------------------------------------------------------------------ the parse loop *)
 
-Lemma fast_atoi_from_fold : forall ty l r, Forall (fun c => c <> 0) l ->
-  fast_atoi_from ty 0 l r = Some (fold_left (atoi_step ty) l r).
+Lemma loop_app : forall step a b r,
+  Forall (fun c => c <> 0) a ->
+  atoi_loop step 0 (a ++ b) r =
+  match atoi_loop step 0 a r with AR_ok r' => atoi_loop step 0 b r' | e => e end.
 Proof.
-  intros ty l. induction l as [| c l IH]; intros r H; cbn [fast_atoi_from fold_left].
-  - reflexivity.
-  - inversion H; subst. destruct (Z.eqb_spec c 0); [contradiction |]. apply IH. assumption.
-Qed.
-
-Lemma sint32_mod : forall x, sint32 x mod W32 = x mod W32.
-Proof. intros x. unfold sint32, W32, W31. destruct (Z.ltb_spec (x mod 4294967296) 2147483648); lia. Qed.
-
-Lemma sint32_cong : forall a b, a mod W32 = b mod W32 -> sint32 a = sint32 b.
-Proof. intros a b H. unfold sint32. rewrite H. reflexivity. Qed.
-
-Lemma sint32_small : forall x, -2147483648 <= x < 2147483648 -> sint32 x = x.
-Proof. intros x H. unfold sint32, W32, W31. destruct (Z.ltb_spec (x mod 4294967296) 2147483648); lia. Qed.
-
-Lemma shl3 : forall x, Z.shiftl x 3 = x * 8.
-Proof. intros. rewrite Z.shiftl_mul_pow2 by lia. reflexivity. Qed.
-Lemma shl1 : forall x, Z.shiftl x 1 = x * 2.
-Proof. intros. rewrite Z.shiftl_mul_pow2 by lia. reflexivity. Qed.
-
-Lemma mod_lin : forall M a b k, 0 < M -> a mod M = b mod M ->
-  (a * 8 + a * 2 + k) mod M = (10 * b + k) mod M.
-Proof.
-  intros M a b k HM H.
-  replace (a * 8 + a * 2 + k) with (10 * a + k) by lia.
-  rewrite Z.add_mod, Z.mul_mod, H, <- Z.mul_mod, <- Z.add_mod by lia. reflexivity.
-Qed.
-
-Lemma atoi_fold_int : forall l a r, a mod W32 = r mod W32 -> a = sint32 a ->
-  fold_left (atoi_step T_int) l a = sint32 (horner l r).
-Proof.
-  induction l as [| c l IH]; intros a r H Ha; cbn [fold_left horner].
-  - rewrite Ha. apply sint32_cong. exact H.
-  - change (fold_left (fun a0 c0 => 10 * a0 + schar c0 - 48) l (10 * r + schar c - 48))
-      with (horner l (10 * r + schar c - 48)).
-    apply IH.
-    + unfold atoi_step. rewrite sint32_mod, shl3, shl1.
-      replace (a * 8 + a * 2 + schar c - 48) with (a * 8 + a * 2 + (schar c - 48)) by lia.
-      replace (10 * r + schar c - 48) with (10 * r + (schar c - 48)) by lia.
-      apply mod_lin; [reflexivity | exact H].
-    + unfold atoi_step. symmetry. apply sint32_cong. apply sint32_mod.
-Qed.
-
-Lemma atoi_fold_mod : forall ty M, (ty = T_uint /\ M = W32) \/ (ty = T_ushort /\ M = W16) ->
-  forall l a r, a mod M = r mod M -> a = a mod M ->
-  fold_left (atoi_step ty) l a = (horner l r) mod M.
-Proof.
-  intros ty M HM.
-  assert (Mpos : 0 < M) by (destruct HM as [[_ ->] | [_ ->]]; reflexivity).
-  assert (Hstep : forall a c, atoi_step ty a c = (a * 8 + a * 2 + (schar c - 48)) mod M).
-  { intros a c. unfold atoi_step. rewrite shl3, shl1.
-    replace (a * 8 + a * 2 + schar c - 48) with (a * 8 + a * 2 + (schar c - 48)) by lia.
-    destruct HM as [[-> ->] | [-> ->]]; reflexivity. }
-  induction l as [| c l IH]; intros a r H Ha; cbn [fold_left horner].
-  - rewrite Ha. exact H.
-  - change (fold_left (fun a0 c0 => 10 * a0 + schar c0 - 48) l (10 * r + schar c - 48))
-      with (horner l (10 * r + schar c - 48)).
-    apply IH.
-    + rewrite Hstep, Z.mod_mod by lia.
-      replace (10 * r + schar c - 48) with (10 * r + (schar c - 48)) by lia.
-      apply mod_lin; [exact Mpos | exact H].
-    + rewrite Hstep, Z.mod_mod by lia. reflexivity.
+  intros step. induction a as [| c a IH]; intros b r H; cbn [app atoi_loop].
+  - destruct b; reflexivity.
+  - inversion H; subst. destruct (Z.eqb_spec c 0); [contradiction |].
+    destruct (step r c); try reflexivity. apply IH. assumption.
 Qed.
 
 Lemma digits_no_nul : forall l, Forall (fun c => 48 <= c <= 57) l -> Forall (fun c => c <> 0) l.
 Proof. intros l H. eapply Forall_impl; [| exact H]. cbn. intros; lia. Qed.
 
-(* fast_atoi on the decimal digits of n, whatever the target type: the value n, wrapped *)
-Lemma atoi_int_digits : forall n, 0 <= n < 10 ^ 25 ->
-  fast_atoi T_int 0 (dec_digits dec_fuel n) = Some (sint32 n).
+Lemma schar_digit : forall d, 0 <= d <= 9 -> schar (48 + d) = 48 + d.
+Proof. intros d H. unfold schar. destruct (Z.ltb_spec (48 + d) 128); lia. Qed.
+
+Lemma in_int_true : forall x, -2147483648 <= x < 2147483648 -> in_int x = true.
+Proof. intros x H. unfold in_int, W31. apply andb_true_intro. split; [apply Z.leb_le | apply Z.ltb_lt]; lia. Qed.
+
+(* T = int, one more digit d after a prefix q whose extension 10 q + d still fits: no operation
+   leaves int (upwards for non-negative numbers, downwards after a '-') *)
+Lemma int_step_up : forall q d, 0 <= q -> 0 <= d <= 9 -> 10 * q + d <= 2147483647 ->
+  int_step false q (48 + d) = AR_ok (10 * q + d).
 Proof.
-  intros n Hn. unfold fast_atoi.
-  rewrite fast_atoi_from_fold by (apply digits_no_nul, dec_digits_are_digits; lia).
-  rewrite (atoi_fold_int _ 0 0) by reflexivity.
-  rewrite horner_dec_digits by (try (unfold dec_fuel; lia); exact Hn).
-  rewrite Z.mul_0_l, Z.add_0_l. reflexivity.
+  intros q d Hq Hd Hb. unfold int_step. rewrite schar_digit by exact Hd.
+  rewrite in_int_true by lia. cbn [negb]. rewrite in_int_true by lia. cbn [negb]. f_equal. lia.
+Qed.
+
+Lemma int_step_down : forall q d, 0 <= q -> 0 <= d <= 9 -> 10 * q + d <= 2147483648 ->
+  int_step true (- q) (48 + d) = AR_ok (- (10 * q + d)).
+Proof.
+  intros q d Hq Hd Hb. unfold int_step. rewrite schar_digit by exact Hd.
+  rewrite in_int_true by lia. cbn [negb]. rewrite in_int_true by lia. cbn [negb]. f_equal. lia.
+Qed.
+
+Lemma up_digits : forall f n, 0 <= n < 10 ^ Z.of_nat f -> (0 < f)%nat -> n <= 2147483647 ->
+  atoi_loop (int_step false) 0 (dec_digits f n) 0 = AR_ok n.
+Proof.
+  induction f as [| f IH]; intros n Hn Hf Hb; [lia |].
+  cbn [dec_digits]. destruct (Z.ltb_spec n 10).
+  - cbn [atoi_loop]. destruct (Z.eqb_spec (48 + n) 0); [lia |].
+    rewrite int_step_up by lia. cbn [Z.eqb]. f_equal; lia.
+  - rewrite pow10_S in Hn.
+    assert (Hf' : (0 < f)%nat) by (destruct f; [simpl in Hn; lia | lia]).
+    rewrite loop_app by (apply digits_no_nul, dec_digits_are_digits; lia).
+    rewrite IH by (try lia; pose proof (pow10_pos f); lia).
+    cbn [atoi_loop]. destruct (Z.eqb_spec (48 + n mod 10) 0); [lia |].
+    rewrite int_step_up by lia. cbn [Z.eqb]. f_equal; lia.
+Qed.
+
+Lemma down_digits : forall f n, 0 <= n < 10 ^ Z.of_nat f -> (0 < f)%nat -> n <= 2147483648 ->
+  atoi_loop (int_step true) 0 (dec_digits f n) 0 = AR_ok (- n).
+Proof.
+  induction f as [| f IH]; intros n Hn Hf Hb; [lia |].
+  cbn [dec_digits]. destruct (Z.ltb_spec n 10).
+  - cbn [atoi_loop]. destruct (Z.eqb_spec (48 + n) 0); [lia |].
+    change (int_step true 0 (48 + n)) with (int_step true (- 0) (48 + n)). rewrite int_step_down by lia. cbn [Z.eqb]. f_equal; lia.
+  - rewrite pow10_S in Hn.
+    assert (Hf' : (0 < f)%nat) by (destruct f; [simpl in Hn; lia | lia]).
+    rewrite loop_app by (apply digits_no_nul, dec_digits_are_digits; lia).
+    rewrite IH by (try lia; pose proof (pow10_pos f); lia).
+    cbn [atoi_loop]. destruct (Z.eqb_spec (48 + n mod 10) 0); [lia |].
+    rewrite int_step_down by lia. cbn [Z.eqb]. f_equal; lia.
+Qed.
+
+(* fast_atoi<int> on the canonical text of ANY int32: the value, and no undefined operation *)
+Lemma atoi_int_canon : forall v, -2147483648 <= v < 2147483648 ->
+  fast_atoi T_int 0 (canon_dec v) = AR_ok v.
+Proof.
+  intros v Hv. unfold fast_atoi, canon_dec. destruct (Z.ltb_spec v 0).
+  - rewrite Z.eqb_refl.
+    rewrite down_digits; [f_equal; lia | change (10 ^ Z.of_nat dec_fuel) with (10 ^ 25); lia | unfold dec_fuel; lia | lia].
+  - pose proof (dec_digits_nonempty dec_fuel v ltac:(unfold dec_fuel; lia)) as N.
+    pose proof (dec_digits_are_digits dec_fuel v ltac:(lia)) as F.
+    destruct (dec_digits dec_fuel v) as [| c r] eqn:E; [contradiction |].
+    inversion F; subst. destruct (Z.eqb_spec c 45); [lia |].
+    rewrite <- E. apply up_digits; [change (10 ^ Z.of_nat dec_fuel) with (10 ^ 25); lia | unfold dec_fuel; lia | lia].
+Qed.
+
+(* ------------------------------------------------------------------- the unsigned parsers *)
+
+Definition uns_val (ty : ity) (raw : Z) : Z := match ty with T_ushort => raw mod W16 | _ => raw mod W32 end.
+
+Lemma uns_loop_fold : forall ty l r, Forall (fun c => c <> 0) l ->
+  atoi_loop (uns_step ty) 0 l r =
+  AR_ok (fold_left (fun a c => uns_val ty (a * 10 + (schar c - 48))) l r).
+Proof.
+  intros ty l. induction l as [| c l IH]; intros r H; cbn [atoi_loop fold_left].
+  - reflexivity.
+  - inversion H; subst. destruct (Z.eqb_spec c 0); [contradiction |].
+    assert (E : uns_step ty r c = AR_ok (uns_val ty (r * 10 + (schar c - 48)))) by (destruct ty; reflexivity).
+    rewrite E. apply IH. assumption.
+Qed.
+
+Lemma uns_fold_mod : forall ty M, (ty = T_uint /\ M = W32) \/ (ty = T_ushort /\ M = W16) ->
+  forall l a r, a mod M = r mod M -> a = a mod M ->
+  fold_left (fun a c => uns_val ty (a * 10 + (schar c - 48))) l a = (horner l r) mod M.
+Proof.
+  intros ty M HM.
+  assert (Mpos : 0 < M) by (destruct HM as [[_ ->] | [_ ->]]; reflexivity).
+  assert (Hval : forall x, uns_val ty x = x mod M) by (intros x; destruct HM as [[-> ->] | [-> ->]]; reflexivity).
+  induction l as [| c l IH]; intros a r H Ha; cbn [fold_left horner].
+  - rewrite Ha. exact H.
+  - change (fold_left (fun a0 c0 => 10 * a0 + schar c0 - 48) l (10 * r + schar c - 48))
+      with (horner l (10 * r + schar c - 48)).
+    apply IH.
+    + rewrite Hval, Z.mod_mod by lia.
+      replace (10 * r + schar c - 48) with (r * 10 + (schar c - 48)) by lia.
+      rewrite Z.add_mod, Z.mul_mod, H, <- Z.mul_mod, <- Z.add_mod by lia. reflexivity.
+    + rewrite Hval, Z.mod_mod by lia. reflexivity.
 Qed.
 
 Lemma atoi_mod_digits : forall ty M, (ty = T_uint /\ M = W32) \/ (ty = T_ushort /\ M = W16) ->
-  forall n, 0 <= n < 10 ^ 25 -> fast_atoi ty 0 (dec_digits dec_fuel n) = Some (n mod M).
+  forall n, 0 <= n < 10 ^ 25 -> fast_atoi ty 0 (dec_digits dec_fuel n) = AR_ok (n mod M).
 Proof.
-  intros ty M HM n Hn. unfold fast_atoi.
-  rewrite fast_atoi_from_fold by (apply digits_no_nul, dec_digits_are_digits; lia).
-  rewrite (atoi_fold_mod ty M HM _ 0 0) by (destruct HM as [[_ ->] | [_ ->]]; reflexivity).
+  intros ty M HM n Hn.
+  assert (Ef : fast_atoi ty 0 (dec_digits dec_fuel n) = atoi_loop (uns_step ty) 0 (dec_digits dec_fuel n) 0)
+    by (destruct HM as [[-> _] | [-> _]]; reflexivity).
+  rewrite Ef, uns_loop_fold by (apply digits_no_nul, dec_digits_are_digits; lia).
+  rewrite (uns_fold_mod ty M HM _ 0 0) by (destruct HM as [[_ ->] | [_ ->]]; reflexivity).
   rewrite horner_dec_digits by (try (unfold dec_fuel; lia); exact Hn).
   rewrite Z.mul_0_l, Z.add_0_l. reflexivity.
-Qed.
-
-(* the text of a negative number: '-' is taken as the digit 45 - 48 = -3 *)
-Lemma atoi_int_neg_text : forall n, 0 <= n < 10 ^ 25 ->
-  fast_atoi T_int 0 (45 :: dec_digits dec_fuel n) = Some (sint32 (n - 3 * 10 ^ dlen n)).
-Proof.
-  intros n Hn. unfold fast_atoi.
-  rewrite fast_atoi_from_fold.
-  2:{ constructor; [lia |]. apply digits_no_nul, dec_digits_are_digits; lia. }
-  cbn [fold_left].
-  change (atoi_step T_int 0 45) with (-3).
-  rewrite (atoi_fold_int _ (-3) (-3)) by reflexivity.
-  rewrite horner_dec_digits by (try (unfold dec_fuel; lia); exact Hn).
-  unfold dlen. do 2 f_equal. lia.
 Qed.
 
 (* --------------------------------------------------------------------------- round trips *)
 
-Lemma int_roundtrip_nonneg_lemma : forall v, 0 <= v < 2147483648 ->
-  int_roundtrip v = Some (canon_dec v, v).
-Proof.
-  intros v Hv. unfold int_roundtrip.
-  rewrite itoa_int_canonical_lemma by lia.
-  unfold canon_dec. destruct (Z.ltb_spec v 0); [lia |].
-  rewrite atoi_int_digits by lia. rewrite sint32_small by lia. reflexivity.
-Qed.
-
-Lemma uint_roundtrip_lemma : forall v, 0 <= v < 4294967296 ->
-  uint_roundtrip v = Some (canon_dec v, v).
-Proof.
-  intros v Hv. unfold uint_roundtrip.
-  rewrite itoa_uint_canonical_lemma by lia.
-  unfold canon_dec. destruct (Z.ltb_spec v 0); [lia |].
-  rewrite (atoi_mod_digits T_uint W32) by (try lia; left; split; reflexivity).
-  unfold W32. rewrite Z.mod_small by lia. reflexivity.
-Qed.
-
-Lemma ushort_parse_lemma : forall v, 0 <= v < 65536 ->
-  fast_atoi T_ushort 0 (canon_dec v) = Some v.
-Proof.
-  intros v Hv. unfold canon_dec. destruct (Z.ltb_spec v 0); [lia |].
-  rewrite (atoi_mod_digits T_ushort W16) by (try lia; right; split; reflexivity).
-  unfold W16. rewrite Z.mod_small by lia. reflexivity.
-Qed.
-
-(* what the code does with the text of a negative int *)
-Lemma int_roundtrip_neg_lemma : forall v, -2147483648 <= v < 0 ->
-  int_roundtrip v = Some (canon_dec v, sint32 (- v - 3 * 10 ^ dlen (- v))).
-Proof.
-  intros v Hv. unfold int_roundtrip.
-  rewrite itoa_int_canonical_lemma by lia.
-  unfold canon_dec. destruct (Z.ltb_spec v 0); [| lia].
-  rewrite atoi_int_neg_text by lia. reflexivity.
-Qed.
-
-Lemma dlen_bounds : forall n, 1 <= n <= 2147483648 ->
-  1 <= dlen n <= 10 /\ 10 ^ (dlen n - 1) <= n < 10 ^ dlen n.
-Proof.
-  intros n Hn. unfold dlen.
-  destruct (dec_digits_len dec_fuel n) as [A [B C]].
-  - change (10 ^ Z.of_nat dec_fuel) with (10 ^ 25). lia.
-  - unfold dec_fuel. lia.
-  - specialize (B ltac:(lia)).
-    split; [| lia]. split; [lia |].
-    destruct (Z.le_gt_cases (Z.of_nat (length (dec_digits dec_fuel n))) 10) as [L | G]; [exact L |].
-    exfalso.
-    assert (10 ^ 10 <= 10 ^ (Z.of_nat (length (dec_digits dec_fuel n)) - 1))
-      by (apply Z.pow_le_mono_r; lia).
-    change (10 ^ 10) with 10000000000 in *. lia.
-Qed.
-
-(* ... and it is the wrong value for every negative int but one *)
-Lemma int_roundtrip_neg_wrong_lemma : forall v r t, -2147483648 <= v < 0 -> v <> -2115098112 ->
-  int_roundtrip v = Some (t, r) -> r <> v.
-Proof.
-  intros v r t Hv Hx E.
-  rewrite int_roundtrip_neg_lemma in E by exact Hv. inversion E; subst; clear E.
-  destruct (dlen_bounds (- v)) as [[L1 L2] [B1 B2]]; [lia |].
-  assert (Hd : dlen (- v) = 1 \/ dlen (- v) = 2 \/ dlen (- v) = 3 \/ dlen (- v) = 4 \/ dlen (- v) = 5 \/
-               dlen (- v) = 6 \/ dlen (- v) = 7 \/ dlen (- v) = 8 \/ dlen (- v) = 9 \/ dlen (- v) = 10) by lia.
-  unfold sint32, W32, W31.
-  repeat (destruct Hd as [Hd | Hd];
-          [rewrite Hd in *; cbn in B1, B2 |- *;
-           match goal with |- context [?x mod 4294967296 <? 2147483648] =>
-             destruct (Z.ltb_spec (x mod 4294967296) 2147483648) end; lia |]).
-  rewrite Hd in *; cbn in B1, B2 |- *.
-  match goal with |- context [?x mod 4294967296 <? 2147483648] =>
-    destruct (Z.ltb_spec (x mod 4294967296) 2147483648) end; lia.
-Qed.
-
-(* ------------------------------------------------------------------------ oracle level *)
+Definition ar_opt (r : atoi_result) : option Z := match r with AR_ok v => Some v | _ => None end.
 
 Lemma list_eqb_refl : forall l, list_eqb l l = true.
 Proof. induction l as [| x l IH]; cbn [list_eqb]; [reflexivity |]. rewrite Z.eqb_refl, IH. reflexivity. Qed.
@@ -372,6 +319,38 @@ Proof.
   - intros [-> ->]. rewrite list_eqb_refl, Z.eqb_refl. reflexivity.
 Qed.
 
+(* THE integer half of the property: every int32 is rendered as its canonical text and that text
+   parses back to it, without any undefined operation *)
+Lemma int_roundtrip_lemma : forall v, -2147483648 <= v < 2147483648 ->
+  int_roundtrip v = Some (canon_dec v, AR_ok v) /\
+  c08_int_strict_ok v (canon_dec v) (Some v) = true.
+Proof.
+  intros v Hv. split.
+  - unfold int_roundtrip. rewrite itoa_int_canonical_lemma by exact Hv.
+    rewrite atoi_int_canon by exact Hv. reflexivity.
+  - unfold c08_int_strict_ok. apply c08_int_ok_iff. split; reflexivity.
+Qed.
+
+Lemma uint_roundtrip_lemma : forall v, 0 <= v < 4294967296 ->
+  uint_roundtrip v = Some (canon_dec v, AR_ok v).
+Proof.
+  intros v Hv. unfold uint_roundtrip.
+  rewrite itoa_uint_canonical_lemma by lia.
+  unfold canon_dec. destruct (Z.ltb_spec v 0); [lia |].
+  rewrite (atoi_mod_digits T_uint W32) by (try lia; left; split; reflexivity).
+  unfold W32. rewrite Z.mod_small by lia. reflexivity.
+Qed.
+
+Lemma ushort_parse_lemma : forall v, 0 <= v < 65536 ->
+  fast_atoi T_ushort 0 (canon_dec v) = AR_ok v.
+Proof.
+  intros v Hv. unfold canon_dec. destruct (Z.ltb_spec v 0); [lia |].
+  rewrite (atoi_mod_digits T_ushort W16) by (try lia; right; split; reflexivity).
+  unfold W16. rewrite Z.mod_small by lia. reflexivity.
+Qed.
+
+(* ------------------------------------------------------------------------ oracle level *)
+
 Lemma canon_value_sound : forall t v, canon_value t = Some v -> t = canon_dec v.
 Proof.
   intros t v. unfold canon_value.
@@ -381,44 +360,28 @@ Proof.
   intros H. inversion H; subst. apply list_eqb_eq. exact E.
 Qed.
 
-(* the unsigned parsers meet the parser clause on EVERY text *)
-Lemma atoi_uint_ok_lemma : forall text,
-  c08_atoi_ok 0 4294967295 text (fast_atoi T_uint 0 text) = true.
+(* the parser clause on EVERY text, for all three instantiations: whenever the text is the
+   canonical decimal of a value of the type, that value is returned (and, for int, no undefined
+   operation occurs) *)
+Lemma atoi_any_text_lemma : forall text,
+  c08_atoi_ok (-2147483648) 2147483647 text (ar_opt (fast_atoi T_int 0 text)) = true /\
+  c08_atoi_ok 0 4294967295 text (ar_opt (fast_atoi T_uint 0 text)) = true /\
+  c08_atoi_ok 0 65535 text (ar_opt (fast_atoi T_ushort 0 text)) = true.
 Proof.
   intros text. unfold c08_atoi_ok.
-  destruct (canon_value text) as [v |] eqn:E; [| reflexivity].
-  apply canon_value_sound in E. subst text.
-  destruct (Z.leb_spec 0 v); cbn [andb]; [| reflexivity].
-  destruct (Z.leb_spec v 4294967295); [| reflexivity].
-  unfold canon_dec. destruct (Z.ltb_spec v 0); [lia |].
-  rewrite (atoi_mod_digits T_uint W32) by (try lia; left; split; reflexivity).
-  unfold W32. rewrite Z.mod_small by lia. apply Z.eqb_refl.
-Qed.
-
-Lemma atoi_ushort_ok_lemma : forall text,
-  c08_atoi_ok 0 65535 text (fast_atoi T_ushort 0 text) = true.
-Proof.
-  intros text. unfold c08_atoi_ok.
-  destruct (canon_value text) as [v |] eqn:E; [| reflexivity].
-  apply canon_value_sound in E. subst text.
-  destruct (Z.leb_spec 0 v); cbn [andb]; [| reflexivity].
-  destruct (Z.leb_spec v 65535); [| reflexivity].
-  rewrite ushort_parse_lemma by lia. apply Z.eqb_refl.
-Qed.
-
-(* the int parser meets it on every text that does not denote a negative number *)
-Lemma atoi_int_ok_partial_lemma : forall text,
-  match canon_value text with Some v => 0 <=? v | None => true end = true ->
-  c08_atoi_ok (-2147483648) 2147483647 text (fast_atoi T_int 0 text) = true.
-Proof.
-  intros text. unfold c08_atoi_ok.
-  destruct (canon_value text) as [v |] eqn:E; [| reflexivity].
-  intros Hv. apply Z.leb_le in Hv.
-  apply canon_value_sound in E. subst text.
-  destruct (Z.leb_spec (-2147483648) v); cbn [andb]; [| reflexivity].
-  destruct (Z.leb_spec v 2147483647); [| reflexivity].
-  unfold canon_dec. destruct (Z.ltb_spec v 0); [lia |].
-  rewrite atoi_int_digits by lia. rewrite sint32_small by lia. apply Z.eqb_refl.
+  destruct (canon_value text) as [v |] eqn:E; [| repeat split; reflexivity].
+  apply canon_value_sound in E. subst text. repeat split.
+  - destruct (Z.leb_spec (-2147483648) v); cbn [andb]; [| reflexivity].
+    destruct (Z.leb_spec v 2147483647); [| reflexivity].
+    rewrite atoi_int_canon by lia. cbn [ar_opt]. apply Z.eqb_refl.
+  - destruct (Z.leb_spec 0 v); cbn [andb]; [| reflexivity].
+    destruct (Z.leb_spec v 4294967295); [| reflexivity].
+    unfold canon_dec. destruct (Z.ltb_spec v 0); [lia |].
+    rewrite (atoi_mod_digits T_uint W32) by (try lia; left; split; reflexivity).
+    unfold W32. rewrite Z.mod_small by lia. cbn [ar_opt]. apply Z.eqb_refl.
+  - destruct (Z.leb_spec 0 v); cbn [andb]; [| reflexivity].
+    destruct (Z.leb_spec v 65535); [| reflexivity].
+    rewrite ushort_parse_lemma by lia. cbn [ar_opt]. apply Z.eqb_refl.
 Qed.
 
 (* the specification text denotes the value: Horner evaluation of canon_dec *)
@@ -467,155 +430,18 @@ Proof.
     rewrite Hd by lia. rewrite list_eqb_refl. reflexivity.
 Qed.
 
-Lemma int_roundtrip_nonneg_ok_lemma : forall v, 0 <= v < 2147483648 ->
-  int_roundtrip v = Some (canon_dec v, v) /\ c08_int_ok v (canon_dec v) v = true.
-Proof.
-  intros v H. split; [exact (int_roundtrip_nonneg_lemma v H) | apply c08_int_ok_iff; split; reflexivity].
-Qed.
+(* --------------------------------------------- the routine before the repair: witnesses *)
 
-Lemma atoi_unsigned_any_text_lemma : forall text,
-  c08_atoi_ok 0 4294967295 text (fast_atoi T_uint 0 text) = true /\
-  c08_atoi_ok 0 65535 text (fast_atoi T_ushort 0 text) = true.
-Proof. intros text. split; [apply atoi_uint_ok_lemma | apply atoi_ushort_ok_lemma]. Qed.
+(* "-5" was read as the number with leading "digit" '-' - '0' = -3: -25 *)
+Lemma atoi_neg_orig_refuted_lemma :
+  itoa_int (-5) 10 = Some [45; 53] /\ fast_atoi_orig [45; 53] = -25 /\
+  fast_atoi_checked_orig [45; 53] = AC_shift_negative /\
+  fast_atoi T_int 0 [45; 53] = AR_ok (-5).
+Proof. vm_compute. repeat split; reflexivity. Qed.
 
-(* --------------------------------------------- fast_atoi<int> under the checked C++ rules *)
-
-Lemma checked_app : forall a b r,
-  Forall (fun c => c <> 0) a ->
-  fast_atoi_checked_from (a ++ b) r =
-  match fast_atoi_checked_from a r with AC_ok r' => fast_atoi_checked_from b r' | e => e end.
-Proof.
-  induction a as [| c a IH]; intros b r H; cbn [app fast_atoi_checked_from].
-  - destruct b; reflexivity.
-  - inversion H; subst. destruct (Z.eqb_spec c 0); [contradiction |].
-    destruct (atoi_step_checked r c); try reflexivity. apply IH. assumption.
-Qed.
-
-(* one digit appended to a non-negative prefix value q: fine iff 10 q + d + 48 fits *)
-Lemma step_checked_digit : forall q d, 0 <= q <= 214748364 -> 0 <= d <= 9 ->
-  atoi_step_checked q (48 + d) =
-  if 10 * q + d + 48 <? 2147483648 then AC_ok (10 * q + d) else AC_overflow.
-Proof.
-  intros q d Hq Hd. unfold atoi_step_checked, in_int, W31.
-  rewrite shl3, shl1.
-  assert (Hs : schar (48 + d) = 48 + d) by (unfold schar; destruct (Z.ltb_spec (48 + d) 128); lia).
-  rewrite Hs.
-  destruct (Z.ltb_spec q 0); [lia |].
-  destruct (Z.ltb_spec (10 * q + d + 48) 2147483648) as [L | L].
-  - assert (E1 : ((-2147483648 <=? q * 8) && (q * 8 <? 2147483648)) = true)
-      by (apply andb_true_intro; split; [apply Z.leb_le | apply Z.ltb_lt]; lia).
-    assert (E2 : ((-2147483648 <=? q * 2) && (q * 2 <? 2147483648)) = true)
-      by (apply andb_true_intro; split; [apply Z.leb_le | apply Z.ltb_lt]; lia).
-    assert (E3 : ((-2147483648 <=? q * 8 + q * 2) && (q * 8 + q * 2 <? 2147483648)) = true)
-      by (apply andb_true_intro; split; [apply Z.leb_le | apply Z.ltb_lt]; lia).
-    assert (E4 : ((-2147483648 <=? q * 8 + q * 2 + (48 + d)) && (q * 8 + q * 2 + (48 + d) <? 2147483648)) = true)
-      by (apply andb_true_intro; split; [apply Z.leb_le | apply Z.ltb_lt]; lia).
-    assert (E5 : ((-2147483648 <=? q * 8 + q * 2 + (48 + d) - 48) && (q * 8 + q * 2 + (48 + d) - 48 <? 2147483648)) = true)
-      by (apply andb_true_intro; split; [apply Z.leb_le | apply Z.ltb_lt]; lia).
-    change (- (2147483648)) with (-2147483648).
-    rewrite E1, E2, E3, E4, E5. cbn [andb negb]. f_equal. lia.
-  - assert (E1 : ((-2147483648 <=? q * 8) && (q * 8 <? 2147483648)) = true)
-      by (apply andb_true_intro; split; [apply Z.leb_le | apply Z.ltb_lt]; lia).
-    assert (E2 : ((-2147483648 <=? q * 2) && (q * 2 <? 2147483648)) = true)
-      by (apply andb_true_intro; split; [apply Z.leb_le | apply Z.ltb_lt]; lia).
-    change (- (2147483648)) with (-2147483648).
-    rewrite E1, E2. cbn [andb negb].
-    destruct ((-2147483648 <=? q * 8 + q * 2) && (q * 8 + q * 2 <? 2147483648)); cbn [negb]; [| reflexivity].
-    assert (E4 : ((-2147483648 <=? q * 8 + q * 2 + (48 + d)) && (q * 8 + q * 2 + (48 + d) <? 2147483648)) = false).
-    { apply andb_false_intro2. apply Z.ltb_ge. lia. }
-    rewrite E4. reflexivity.
-Qed.
-
-Lemma checked_digits_ok : forall f n, 0 <= n < 10 ^ Z.of_nat f -> (0 < f)%nat -> n < 2147483600 ->
-  fast_atoi_checked_from (dec_digits f n) 0 = AC_ok n.
-Proof.
-  induction f as [| f IH]; intros n Hn Hf Hb; [lia |].
-  cbn [dec_digits]. destruct (Z.ltb_spec n 10).
-  - cbn [fast_atoi_checked_from]. destruct (Z.eqb_spec (48 + n) 0); [lia |].
-    rewrite step_checked_digit by lia.
-    destruct (Z.ltb_spec (10 * 0 + n + 48) 2147483648); [| lia]. f_equal; lia.
-  - rewrite pow10_S in Hn.
-    assert (Hf' : (0 < f)%nat) by (destruct f; [simpl in Hn; lia | lia]).
-    rewrite checked_app by (apply digits_no_nul, dec_digits_are_digits; lia).
-    rewrite IH by (try lia; pose proof (pow10_pos f); lia).
-    cbn [fast_atoi_checked_from]. destruct (Z.eqb_spec (48 + n mod 10) 0); [lia |].
-    rewrite step_checked_digit by lia.
-    destruct (Z.ltb_spec (10 * (n / 10) + n mod 10 + 48) 2147483648); [| lia]. f_equal; lia.
-Qed.
-
-Lemma dec_digits_S : forall f n,
-  dec_digits (S f) n = if n <? 10 then [48 + n] else dec_digits f (n / 10) ++ [48 + n mod 10].
-Proof. reflexivity. Qed.
-
-Lemma checked_digits_overflow : forall n, 2147483600 <= n < 2147483648 ->
-  fast_atoi_checked_from (dec_digits dec_fuel n) 0 = AC_overflow.
-Proof.
-  intros n Hn. change dec_fuel with (S 24). rewrite dec_digits_S.
-  destruct (Z.ltb_spec n 10); [lia |].
-  rewrite checked_app by (apply digits_no_nul, dec_digits_are_digits; lia).
-  rewrite checked_digits_ok by (try lia; change (10 ^ Z.of_nat 24) with (10 ^ 24); lia).
-  cbn [fast_atoi_checked_from]. destruct (Z.eqb_spec (48 + n mod 10) 0); [lia |].
-  rewrite step_checked_digit by lia.
-  destruct (Z.ltb_spec (10 * (n / 10) + n mod 10 + 48) 2147483648); [lia | reflexivity].
-Qed.
-
-(* [0, 2147483600): no undefined behaviour and the value comes back *)
-Lemma int_roundtrip_checked_ok_lemma : forall v, 0 <= v < 2147483600 ->
-  int_roundtrip_checked v = Some (canon_dec v, AC_ok v) /\
-  c08_int_strict_ok v (canon_dec v) (Some v) = true.
-Proof.
-  intros v Hv. unfold int_roundtrip_checked. rewrite itoa_int_canonical_lemma by lia. split.
-  - f_equal. f_equal. unfold fast_atoi_checked, canon_dec. destruct (Z.ltb_spec v 0); [lia |].
-    apply checked_digits_ok; [change (10 ^ Z.of_nat dec_fuel) with (10 ^ 25); lia | unfold dec_fuel; lia | lia].
-  - unfold c08_int_strict_ok. apply c08_int_ok_iff. split; reflexivity.
-Qed.
-
-(* [2147483600, INT_MAX]: the last digit is added before '0' is subtracted: signed overflow *)
-Lemma int_roundtrip_checked_top_lemma : forall v, 2147483600 <= v < 2147483648 ->
-  int_roundtrip_checked v = Some (canon_dec v, AC_overflow).
-Proof.
-  intros v Hv. unfold int_roundtrip_checked. rewrite itoa_int_canonical_lemma by lia.
-  f_equal. f_equal. unfold fast_atoi_checked, canon_dec. destruct (Z.ltb_spec v 0); [lia |].
-  apply checked_digits_overflow. exact Hv.
-Qed.
-
-(* negative values: the '-' leaves retval = -3, which is then shifted *)
-Lemma int_roundtrip_checked_neg_lemma : forall v, -2147483648 <= v < 0 ->
-  int_roundtrip_checked v = Some (canon_dec v, AC_shift_negative).
-Proof.
-  intros v Hv. unfold int_roundtrip_checked. rewrite itoa_int_canonical_lemma by lia.
-  f_equal. f_equal. unfold fast_atoi_checked, canon_dec. destruct (Z.ltb_spec v 0); [| lia].
-  cbn [fast_atoi_checked_from Z.eqb].
-  change (atoi_step_checked 0 45) with (AC_ok (-3)). cbv iota.
-  pose proof (dec_digits_nonempty dec_fuel (- v) ltac:(unfold dec_fuel; lia)) as N.
-  pose proof (dec_digits_are_digits dec_fuel (- v) ltac:(lia)) as F.
-  destruct (dec_digits dec_fuel (- v)) as [| c r]; [contradiction |].
-  inversion F; subst. cbn [fast_atoi_checked_from]. destruct (Z.eqb_spec c 0); [lia |].
-  reflexivity.
-Qed.
-
-(* the checked parser refines the wrapping one: when no rule is broken both give the same value *)
-Lemma checked_refines_from : forall str r v, -2147483648 <= r < 2147483648 ->
-  fast_atoi_checked_from str r = AC_ok v -> fast_atoi_from T_int 0 str r = Some v.
-Proof.
-  induction str as [| c str IH]; intros r v Hr H; cbn [fast_atoi_checked_from fast_atoi_from] in *.
-  - inversion H. reflexivity.
-  - destruct (Z.eqb_spec c 0); [inversion H; reflexivity |].
-    destruct (atoi_step_checked r c) as [r' | | |] eqn:E; try discriminate.
-    assert (Hstep : atoi_step T_int r c = r' /\ -2147483648 <= r' < 2147483648).
-    { unfold atoi_step_checked in E. rewrite shl3, shl1 in E. unfold atoi_step. rewrite shl3, shl1.
-      destruct (r <? 0); [discriminate |].
-      destruct (negb (in_int (r * 8) && in_int (r * 2))); [discriminate |].
-      destruct (negb (in_int (r * 8 + r * 2))); [discriminate |].
-      destruct (negb (in_int (r * 8 + r * 2 + schar c))); [discriminate |].
-      destruct (negb (in_int (r * 8 + r * 2 + schar c - 48))) eqn:B; [discriminate |].
-      injection E as E. subst r'. apply negb_false_iff in B. unfold in_int, W31 in B.
-      apply andb_prop in B. destruct B as [B1 B2].
-      apply Z.leb_le in B1. apply Z.ltb_lt in B2.
-      split; [apply sint32_small; lia | lia]. }
-    destruct Hstep as [-> Hr']. apply IH; assumption.
-Qed.
-
-Lemma checked_refines_lemma : forall str v,
-  fast_atoi_checked str = AC_ok v -> fast_atoi T_int 0 str = Some v.
-Proof. intros str v H. apply checked_refines_from; [lia | exact H]. Qed.
+(* INT_MAX: 2147483640 + '7' was evaluated before '0' was subtracted *)
+Lemma atoi_top_overflow_orig_refuted_lemma :
+  itoa_int 2147483647 10 = Some [50; 49; 52; 55; 52; 56; 51; 54; 52; 55] /\
+  fast_atoi_checked_orig [50; 49; 52; 55; 52; 56; 51; 54; 52; 55] = AC_overflow /\
+  fast_atoi T_int 0 [50; 49; 52; 55; 52; 56; 51; 54; 52; 55] = AR_ok 2147483647.
+Proof. vm_compute. repeat split; reflexivity. Qed.
